@@ -220,11 +220,14 @@ struct Rig
   std::map<SessionId, SSL *> peerSsl;
   SSL_CTX *srvCtx = nullptr, *cliCtx = nullptr;
 
-  explicit Rig(bool isUdp, std::size_t maxq) : udp(isUdp)
+  explicit Rig(bool isUdp, std::size_t maxq, std::size_t sessionCap = 0) : udp(isUdp)
   {
     TransportConfig cfg;
     cfg.protocol = udp ? Protocol::UDP : Protocol::TCP;
     cfg.maxWriteQueue = maxq;
+    // UC scenarios: a session cap (the two barrier sessions count too); a connectViaListener at the cap hands out an
+    // id that must still receive its close
+    cfg.maxSessions = sessionCap ? sessionCap + 2 : 0;
     cfg.closeOnBackpressure = true;
     cfg.idleTimeout = std::chrono::seconds(3600);
     cfg.gcInterval = std::chrono::seconds(3600);
@@ -347,8 +350,8 @@ struct Rig
         auto r = tr->connect("127.0.0.1", hport, TlsMode::None);
         if (!r.isOk()) return false;
         { std::lock_guard<std::mutex> g(m); barrierSid[i] = r.value(); }
-        bfd[i] = acceptOne(hl, 3000);
-        if (bfd[i] < 0 || !waitLog(r.value(), "GC", "GX", 3000)) return false;
+        bfd[i] = acceptOne(hl, 15000);
+        if (bfd[i] < 0 || !waitLog(r.value(), "GC", "GX", 15000)) return false;
         allFds.push_back(bfd[i]);
       }
       // a closed port
@@ -406,7 +409,7 @@ struct Rig
         sockaddr_in a = loop(bport[i]);
         ::sendto(bfd[i], &b, 1, 0, reinterpret_cast<sockaddr *>(&a), sizeof(a));
         std::unique_lock<std::mutex> lk(m);
-        if (!cv.wait_for(lk, std::chrono::seconds(3), [&] { return log.size() >= before + 2; })) return false;
+        if (!cv.wait_for(lk, std::chrono::seconds(15), [&] { return log.size() >= before + 2; })) return false;
         // GA then GD of the new session: from now on its data is a barrier
         barrierSid[i] = log[before].first;
       }
@@ -766,9 +769,9 @@ struct Rig
   }
 };
 
-static std::string runScenario(bool udp, std::size_t maxq, const std::vector<std::string> &ops)
+static std::string runScenario(bool udp, std::size_t maxq, const std::vector<std::string> &ops, std::size_t sessionCap = 0)
 {
-  Rig rig(udp, maxq);
+  Rig rig(udp, maxq, sessionCap);
   if (!rig.setup()) { rig.teardown(); return "SETUPFAIL"; }
   for (auto &op : ops) if (!op.empty())
   {
@@ -971,6 +974,7 @@ int main(int argc, char **argv)
     {
       if (p[0] == "T" && p.size() >= 3) r = runScenario(false, std::stoul(p[1]), split(p[2], ';'));
       else if (p[0] == "U" && p.size() >= 2) r = runScenario(true, 1024, split(p[1], ';'));
+      else if (p[0] == "UC" && p.size() >= 3) r = runScenario(true, 1024, split(p[2], ';'), std::stoul(p[1]));
       else if (p[0] == "X" && p.size() >= 5) r = storm(p[1] == "udp", std::stoi(p[2]), std::stoi(p[3]), static_cast<unsigned>(std::stoul(p[4])));
       else r = "BADCASE";
     }
